@@ -224,6 +224,7 @@ def conclude(prop, tier, seed, plan, reports, crashed, hung, scratch, start, out
     for r in reports:
         violations.extend(r.get("violations") or [])
     # a worker that died while running a well-formed scenario is a violation of the property under check
+    killed = 0
     for i, rc, cur, logp in crashed:
         text = ""
         try:
@@ -232,6 +233,12 @@ def conclude(prop, tier, seed, plan, reports, crashed, hung, scratch, start, out
         except OSError:
             pass
         sig = panic_signature(text)
+        if rc == -9 and sig == "worker-died":
+            # SIGKILL from outside with no Go panic or fatal error on its output: the operating system took the
+            # worker (out of memory) - that says nothing about the property; the part it was running is not covered
+            killed += 1
+            print("INCONCLUSIVE property=%s worker %d was killed by the operating system (signal 9, no panic in its output) in scenario %s" % (prop, i, json.dumps(load_json(cur, {}))))
+            continue
         os.makedirs(os.path.join(outdir, prop), exist_ok=True)
         rp = os.path.join(outdir, prop, "crash-shard%d-s%d.json" % (i, seed))
         scen = load_json(cur, {})
@@ -284,7 +291,7 @@ def conclude(prop, tier, seed, plan, reports, crashed, hung, scratch, start, out
                     extra[k].extend(v[: 50 - len(extra[k])])
             else:
                 extra[k] = v
-    inconclusive += len(hung)
+    inconclusive += len(hung) + killed
 
     # classify
     unknown, knownhit = [], {}
